@@ -168,7 +168,16 @@ def rand_spec(rng, maxW, maxH, nops, wide_ok=True, transf_ok=False):
             prev = None
             continue
         if r < 0.12 and i > 0 and (ops[-1][0] in ("erase", "reset") or (ops[-1][0] == "render" and ops[-1][2])):
-            ops.append(("reset",))      # only where the renderer is fresh (the contract of reset)
+            ops.append(("reset",))      # where the renderer is fresh
+            continue
+        if 0.12 <= r < 0.16 and i > 0 and ops[-1][0] == "render" and not ops[-1][2]:
+            # reset() after a normal render: in contract when the cursor is in column 0
+            # (forced half of the time), correspondence only otherwise
+            scr0 = ops[-1][5]
+            if scr0["cursor"] is not None and rng.random() < 0.5:
+                scr0["cursor"] = (0, scr0["cursor"][1])
+            ops.append(("reset",))
+            prev = None
             continue
         if rng.random() < 0.1:
             cfg = rng.randrange(ncfg)
